@@ -417,6 +417,18 @@ class ExtMixin:
                 if not ok and not l.terms and l.c != sz:
                     return Raised("struct.error", node, fr.func, "unpack size")
         self.event(st, fr, "unpack", node, (fmt, a[1], ln, ok))
+        cb = self.concrete_bytes(a[1], st)
+        if cb is not None and len(cb) == sz and order in ("", "<", "=", "@") and all(c in "bBhHiIlLqQ" for c in codes):
+            # constant folding of a fully known little-endian image (the analyser's own decoder)
+            vals, off = [], 0
+            for c in codes:
+                n_, lo, hi = STRUCT_CODES[c]
+                if order in ("", "@") and off % n_:
+                    off += n_ - off % n_
+                v = int.from_bytes(cb[off:off + n_], "little", signed=lo < 0)
+                vals.append(Const(v))
+                off += n_
+            return Seq(vals, "tuple")
         items = []
         for k, c in enumerate([c for c in codes if c != "x"]):
             _sz, lo, hi = STRUCT_CODES[c]
